@@ -216,12 +216,6 @@ package lua
 //@ define cfVararg(cf *callFrame) bool = (cf.Fn.Proto.IsVarArg & 2) != 0
 //@ define cfNeedsArg(cf *callFrame) bool = (cf.Fn.Proto.IsVarArg & 4) != 0
 
-//@ trusted (*LTable).RawSetString [C09]
-//@ assume RawSetString touches only the hash part of the table (verified under C09 when the hash part is under contract)
-//@ noraise
-//@ ensures  arrid(tb.keys) == old(arrid(tb.keys)) || fresh(tb.keys)
-//@ modifies tb.dict, tb.strdict, tb.keys, tb.k2i, tb.keys[*], tb.dict{*}, tb.strdict{*}, tb.k2i{*}
-
 //@ func (*LState).initCallFrame [C02 C10]
 //@ requires ls != nil && ls.reg != nil && Inv_reg(ls.reg) && cf != nil && cf.Fn != nil && (!cf.Fn.IsG ==> cf.Fn.Proto != nil)
 //@ requires 0 <= cf.LocalBase && 0 <= cf.NArgs && cf.LocalBase + cf.NArgs <= ls.reg.top
